@@ -53,7 +53,8 @@ def requirements(tier):
             'injected_faults': 8000 if q else 100000,
             'raised_recognition': 20000 if q else 250000,
             'raised_yaml': 3000 if q else 40000,
-            'soup_texts': 5000 if q else 60000}
+            'soup_texts': 5000 if q else 60000,
+            'long_lived_function_calls': 6000 if q else 25000}
 
 
 def judge(ctx, spec, text, kind, x, case, origin, fault=None):
@@ -92,6 +93,7 @@ def run_case(ctx, spec, text, meta=None, faults=True):
         ctx.case(case, False)
         return
     origin = (meta or {}).get('origin', 'replay')
+    H.prior_partial_use(ctx, m, text, 5)
     m.reset()
     kind, x = H.run_load(load, text)
     ctx.count('loads')
@@ -147,6 +149,9 @@ def cap(text):
 
 
 def shard(ctx):
+    if ctx.shard < 3:
+        long_lived_function(ctx, ctx.shard, ctx.budget(2500 * 16,
+                                                       10000 * 16))
     n_models = ctx.budget(6000, 80000)
     for i in range(n_models):
         profile = 'free' if ctx.rng.random() < 0.7 else 'unamb'
@@ -162,6 +167,46 @@ def shard(ctx):
                      and ctx.rng.random() < 0.35)
 
 
+LONG_DOCS = ['a: 1\nb: 2.5\nc: true\nd: 2001-12-14\ne: [x, 0x1F, ~]\n',
+             '[1, 2, 3]\n', 'x: !!int abc\n', '{a: [1, {b: 2.0}]}\n',
+             'a: {b: {c: {d: [1, 2, {e: false}]}}}\n', 'k: &a [1]\nl: *a\n',
+             '- 1\n- 1.5\n- false\n- 2001-12-14 21:59:43.10 -5\n', '1\n']
+
+
+def long_lived_function(ctx, which, n_calls):
+    """One load function used for a long time: the statement holds for
+    its thousandth call as for its first.  (Every other case here makes a
+    fresh function per model.)"""
+    from typing import Any, Dict, List, Union
+    spec = {'classes': [], 'doc_type': 'any', 'long_lived': which}
+    if which == 0:
+        load = yatiml.load_function()
+    elif which == 1:
+        load = yatiml.load_function(Union[Dict[str, Any], List[Any], int])
+    else:
+        class LongLived:
+            def __init__(self, a: int, b: float = 1.0, c: bool = False,
+                         e: Any = None) -> None:
+                self.a = a
+        load = yatiml.load_function(Union[LongLived, List[Any], int],
+                                    LongLived)
+    for i in range(n_calls):
+        text = LONG_DOCS[i % len(LONG_DOCS)]
+        kind, x = H.run_load(load, text)
+        ctx.count('long_lived_function_calls')
+        if kind == 'err' and not isinstance(
+                x, (yatiml.RecognitionError, yaml.YAMLError)):
+            ctx.violation(
+                'C08 escape %s %s feature=long-lived-function' % (
+                    type(x).__name__, H.exc_site(x)),
+                'call number %d of one load function raised %s: %s for '
+                'document %r' % (i + 1, type(x).__name__, str(x)[:200],
+                                 text), {'spec': spec, 'text': text,
+                                         'long_lived': [which, i + 1]})
+            return
+    ctx.case(['long-lived', which], True)
+
+
 def on_shard_crash(i, rc, tail, problems):
     # a dying shard is a witness of a crash inside load (C08/C18); it is
     # reported as inconclusive with the faulthandler tail so that it is seen
@@ -169,7 +214,10 @@ def on_shard_crash(i, rc, tail, problems):
 
 
 def replay(ctx, case):
-    if case.get('fault'):
+    if case.get('long_lived'):
+        long_lived_function(ctx, case['long_lived'][0],
+                            case['long_lived'][1] + 10)
+    elif case.get('fault'):
         run_fault(ctx, case['spec'], case['text'], case['fault'][0],
                   case['fault'][1])
     else:
